@@ -64,16 +64,19 @@ CHECKS = {
         technique='bounded runtime contracts on FST()/parse modes with CPython as oracle; not a proof',
         ref='DESIGN.md section 4 C05'),
     'C06': dict(
-        category='exploration',
-        text='Bounded: for every node of every program in scope .loc equals the CPython extent converted to '
-             'character columns, byte accessors equal the AST\'s, computed locations start/end on token boundaries '
-             '(tokenize), operator locations cover exactly the operator text, pars() text is n balanced parentheses '
-             'around a balanced expression, children lie inside parents, siblings are ordered and disjoint, and '
-             'find_in_loc / find_contains_loc agree with a brute-force scan over sampled token-boundary rectangles. '
-             'Known findings F-C06-1/2 (decorators, debug f-strings).',
-        note='Bounded runtime contracts; oracles: ast positions, tokenize, brute-force scan. Nothing proved; the '
-             'bistr c2b/b2c contracts of DESIGN C06/P are not registered in this revision.',
-        technique='bounded runtime contracts on location queries with tokenize / CPython positions as oracle',
+        category='proof',
+        text='Proof (with loop invariants, for ALL strings: per-character UTF-8 widths are abstract, 1..4 bytes) that '
+             'bistr.c2b(idx) is the byte length of self[:idx], that b2c(c2b(s)) == s, that the ASCII fast path is the '
+             'identity, that the index tables have length len+1 and the stated content, that every value stored in a '
+             'fixed-width array.array fits the typecode chosen by _make_array (the only machine-width arithmetic in '
+             'the library), and the memo rebinding protocol. This is the fragment behind "character- and byte-based '
+             'coordinates agree". Everything else of C06 is bounded: .loc vs CPython extents, token boundaries, '
+             'operators, pars(), nesting, siblings, find_* vs brute force (thorough: standard library). Known findings '
+             'F-C06-1/2.',
+        note=TB + 'Assumes no string is longer than sys.maxsize bytes. ' + BND + ' Undecided remainder: text scanners '
+             'behind computed locations, b2c off character boundaries.',
+        technique='contract-based deductive verification with inductive loop invariants (z3, abstract strings) + '
+                  'bounded runtime contracts on location queries with tokenize / CPython positions as oracle',
         ref='DESIGN.md section 4 C06'),
     'C07': dict(
         category='exploration',
